@@ -84,9 +84,11 @@ def run_flox(case: dict):
     kw = {}
     if case.get("expected") is not None:
         kw["expected_groups"] = np.array(case["expected"], dtype=case.get("label_dtype", "float64"))
-    for k in ("fill_value", "min_count", "engine", "method", "reindex", "dtype", "axis", "isbin"):
+    for k in ("fill_value", "min_count", "engine", "method", "reindex", "axis", "isbin"):
         if case.get(k) is not None:
             kw[k] = unf(case[k]) if k == "fill_value" else case[k]
+    if case.get("out_dtype") is not None:     # the dtype= argument of groupby_reduce ("dtype" is the INPUT dtype)
+        kw["dtype"] = case["out_dtype"]
     if "sort" in case:
         kw["sort"] = case["sort"]
     fk = {}
